@@ -198,17 +198,6 @@ theorem startSubs_ext (P : Prog) (i : Nat) (subs : List Nat) (st : St) :
   unfold startSubs
   exact (startAll_ext P subs st).trans (Ext.modInst _ _ _)
 
-theorem evalReqs_ext (P : Prog) (first : Bool) (l : List Nat) (st : St) :
-    Ext Ev.isScen st (evalReqs P first l st).1 := by
-  induction l generalizing st with
-  | nil => exact Ext.refl _ _
-  | cons c rest ih =>
-    unfold evalReqs
-    simp only
-    split
-    · exact Ext.emit _ _ (by simp [Ev.isScen])
-    · exact (Ext.emit _ _ (by simp [Ev.isScen])).trans (ih _)
-
 theorem evalTermWhen_ext (P : Prog) (l : List Nat) (st : St) :
     Ext Ev.isScen st (evalTermWhen P l st).1 := by
   induction l generalizing st with
@@ -220,78 +209,72 @@ theorem evalTermWhen_ext (P : Prog) (l : List Nat) (st : St) :
     · exact Ext.emit _ _ (by simp [Ev.isScen])
     · exact (Ext.emit _ _ (by simp [Ev.isScen])).trans (ih _)
 
-theorem checkReqs_ext (P : Prog) (S : Sem) (i : Nat) (st : St) : Ext Ev.isScen st (checkReqs P S i st).1 := by
+theorem checkReqs_ext (P : Prog) (i : Nat) (st : St) : Ext Ev.isScen st (checkReqs P i st) := by
   unfold checkReqs
-  simp only
-  have h0 : Ext Ev.isScen st (if (P.scens.getD (st.inst i).cls default).reqAlways = true then st.emit (.q i) else st) := by
-    split
-    · exact Ext.emit _ _ rfl
-    · exact Ext.refl _ _
   split
-  · exact h0.trans (evalReqs_ext ..)
-  · exact h0
+  · exact Ext.emit _ _ rfl
+  · exact Ext.refl _ _
+
+theorem checkReqs_insts (P : Prog) (i : Nat) (st : St) :
+    (checkReqs P i st).insts = st.insts ∧ (checkReqs P i st).time = st.time ∧
+    (checkReqs P i st).agents = st.agents := by
+  unfold checkReqs
+  split <;> simp [St.emit]
 
 theorem stopScen_scen (n i : Nat) (st : St) : Ext Ev.isScen st (stopScen n i st) :=
   ((stop_ext n).1 i st).mono isScen_of_stop
 theorem stopList_scen (n : Nat) (l : List Nat) (st : St) : Ext Ev.isScen st (stopList n l st) :=
   ((stop_ext n).2 l st).mono isScen_of_stop
 
-theorem scen_ext (P : Prog) (S : Sem) (cf : Nat) (n : Nat) :
-    (∀ i st, Ext Ev.isScen st (stepScen P S cf n i st).1) ∧
-    (∀ i cls dyn cd st, Ext Ev.isScen st (afterCompose P S cf n i cls dyn cd st).1) ∧
-    (∀ i out st, (∀ e ∈ out.log, Ev.isScen e = true) → Ext Ev.isScen st (composeHandle P S cf n i out st).1) ∧
-    (∀ i todo new s st, Ext Ev.isScen st (invokeLoop P S cf n i todo new s st).1) := by
+theorem scen_ext (P : Prog) (cf : Nat) (n : Nat) :
+    (∀ i st, Ext Ev.isScen st (stepScen P cf n i st).1) ∧
+    (∀ i cls cd st, Ext Ev.isScen st (afterCompose P cf n i cls cd st).1) ∧
+    (∀ i out st, (∀ e ∈ out.log, Ev.isScen e = true) → Ext Ev.isScen st (composeHandle P cf n i out st).1) ∧
+    (∀ i todo new s st, Ext Ev.isScen st (invokeLoop P cf n i todo new s st).1) := by
   induction n with
   | zero =>
-    refine ⟨fun i st => ?_, fun i cls dyn cd st => ?_, fun i out st _ => ?_, fun i todo new s st => ?_⟩
+    refine ⟨fun i st => ?_, fun i cls cd st => ?_, fun i out st _ => ?_, fun i todo new s st => ?_⟩
     · unfold stepScen; exact Ext.fail _ _
     · unfold afterCompose; exact Ext.fail _ _
     · unfold composeHandle; exact Ext.fail _ _
     · unfold invokeLoop; exact Ext.fail _ _
   | succ n ih =>
     obtain ⟨ih1, ih2, ih3, ih4⟩ := ih
-    refine ⟨fun i st => ?_, fun i cls dyn cd st => ?_, fun i out st hout => ?_, fun i todo new s st => ?_⟩
+    refine ⟨fun i st => ?_, fun i cls cd st => ?_, fun i out st hout => ?_, fun i todo new s st => ?_⟩
     · simp only [stepScen]
-      have h := checkReqs_ext P S i st
-      generalize checkReqs P S i st = r at h ⊢
-      obtain ⟨st1, b⟩ := r
-      cases b with
-      | true => exact h.trans (Ext.fail _ _)
-      | false =>
-        simp only
+      have h := checkReqs_ext P i st
+      generalize checkReqs P i st = st1 at h ⊢
+      split
+      · exact h.trans (stopScen_scen _ _ _)
+      · have h2 : Ext Ev.isScen st (st1.modInst i fun x => { x with elapsed := x.elapsed + 1 }) :=
+          h.trans (Ext.modInst st1 i _)
+        generalize (st1.modInst i fun x => { x with elapsed := x.elapsed + 1 }) = st2 at h2 ⊢
+        refine h2.trans ?_
         split
-        · exact h.trans (stopScen_scen _ _ _)
-        · have h2 : Ext Ev.isScen st (st1.modInst i fun x => { x with elapsed := x.elapsed + 1 }) :=
-            h.trans (Ext.modInst st1 i _)
-          generalize (st1.modInst i fun x => { x with elapsed := x.elapsed + 1 }) = st2 at h2 ⊢
-          refine h2.trans ?_
-          split
-          · exact ih2 ..
-          · rename_i s _
-            have hc := ih3 i (resume P.code (.comp i) st2.time cf s) st2 (by
-              intro e he
-              obtain ⟨l', hl', hC⟩ := resume_log P.code (.comp i) st2.time cf s
-              rw [hl'] at he
-              exact isScen_of_comp i e (hC e (by simpa using he)))
-            generalize composeHandle P S cf n i (resume P.code (.comp i) st2.time cf s) st2 = r at hc ⊢
-            obtain ⟨st3, cr⟩ := r
-            cases cr with
-            | aborted => exact hc
-            | done => exact (hc.trans (Ext.modInst ..)).trans (ih2 ..)
-            | yielded y s' =>
-              cases y with
-              | endScen => exact hc.trans (stopScen_scen _ _ _)
-              | endSim => exact hc.trans (stopScen_scen _ _ _)
-              | acts a => exact (hc.trans (Ext.modInst ..)).trans (ih2 ..)
+        · exact ih2 ..
+        · rename_i s _
+          have hc := ih3 i (resume P.code (.comp i) st2.time cf s) st2 (by
+            intro e he
+            obtain ⟨l', hl', hC⟩ := resume_log P.code (.comp i) st2.time cf s
+            rw [hl'] at he
+            exact isScen_of_comp i e (hC e (by simpa using he)))
+          generalize composeHandle P cf n i (resume P.code (.comp i) st2.time cf s) st2 = r at hc ⊢
+          obtain ⟨st3, cr⟩ := r
+          cases cr with
+          | aborted => exact hc
+          | done => exact (hc.trans (Ext.modInst ..)).trans (ih2 ..)
+          | yielded y s' =>
+            cases y with
+            | endScen => exact hc.trans (stopScen_scen _ _ _)
+            | endSim => exact hc.trans (stopScen_scen _ _ _)
+            | acts a => exact (hc.trans (Ext.modInst ..)).trans (ih2 ..)
     · simp only [afterCompose]
       split
       · exact stopScen_scen _ _ _
-      · split
-        · exact Ext.refl _ _
-        · have h := evalTermWhen_ext P cls.termWhen st
-          split
-          · rename_i st' heq; rw [heq] at h; exact h.trans (stopScen_scen _ _ _)
-          · rename_i st' heq; rw [heq] at h; exact h
+      · have h := evalTermWhen_ext P cls.termWhen st
+        split
+        · rename_i st' heq; rw [heq] at h; exact h.trans (stopScen_scen _ _ _)
+        · rename_i st' heq; rw [heq] at h; exact h
     · simp only [composeHandle]
       have h0 : Ext Ev.isScen st (st.emits out.log) := Ext.emits _ _ hout
       split
@@ -323,7 +306,7 @@ theorem scen_ext (P : Prog) (S : Sem) (cf : Nat) (n : Nat) :
       | cons j rest =>
         simp only [invokeLoop]
         have h := ih1 j st
-        generalize stepScen P S cf n j st = r at h ⊢
+        generalize stepScen P cf n j st = r at h ⊢
         obtain ⟨st', ret⟩ := r
         simp only
         split
@@ -369,9 +352,9 @@ theorem stepMons_ext (P : Prog) (cf i : Nat) (mons : List MonInst) : ∀ (j : Na
       obtain ⟨st2, rest', es', et'⟩ := r
       exact h0.trans h1
 
-theorem mon_ext (P : Prog) (S : Sem) (cf : Nat) (n : Nat) :
-    (∀ i st, Ext Ev.isMon st (runMonitors P S cf n i st).1) ∧
-    (∀ l r st, Ext Ev.isMon st (monSubs P S cf n l r st).1) := by
+theorem mon_ext (P : Prog) (cf : Nat) (n : Nat) :
+    (∀ i st, Ext Ev.isMon st (runMonitors P cf n i st).1) ∧
+    (∀ l r st, Ext Ev.isMon st (monSubs P cf n l r st).1) := by
   induction n with
   | zero =>
     refine ⟨fun i st => ?_, fun l r st => ?_⟩
@@ -390,7 +373,7 @@ theorem mon_ext (P : Prog) (S : Sem) (cf : Nat) (n : Nat) :
       split
       · exact h1
       · have h2 := ih2 (st2.inst i).subs (if es = true then MRet.endSim else MRet.none) st2
-        generalize monSubs P S cf n (st2.inst i).subs (if es = true then MRet.endSim else MRet.none) st2 = r at h2 ⊢
+        generalize monSubs P cf n (st2.inst i).subs (if es = true then MRet.endSim else MRet.none) st2 = r at h2 ⊢
         obtain ⟨st3, sub⟩ := r
         simp only
         split
@@ -404,11 +387,96 @@ theorem mon_ext (P : Prog) (S : Sem) (cf : Nat) (n : Nat) :
       | cons j rest =>
         simp only [monSubs]
         have h0 := ih1 j st
-        generalize runMonitors P S cf n j st = r0 at h0 ⊢
+        generalize runMonitors P cf n j st = r0 at h0 ⊢
         obtain ⟨st1, rj⟩ := r0
         simp only
         split
         · exact h0
         · exact h0.trans (ih2 ..)
+
+/-! ### `terminate simulation when` of the scenario tree, recorded expressions of the scenario tree -/
+
+/-- evaluations of `terminate simulation when` conditions -/
+def Ev.isTS : Ev → Bool
+  | .cond x _ _ => x == .termSim
+  | _ => false
+
+/-- `st'` differs from `st` only by its log and possibly its abort flag -/
+def LogOnly (C : Ev → Bool) (st st' : St) : Prop :=
+  Ext C st st' ∧ st'.insts = st.insts ∧ st'.agents = st.agents
+
+namespace LogOnly
+theorem refl (C) (st : St) : LogOnly C st st := ⟨Ext.refl _ _, rfl, rfl⟩
+theorem trans {C} {a b c : St} (h1 : LogOnly C a b) (h2 : LogOnly C b c) : LogOnly C a c :=
+  ⟨h1.1.trans h2.1, h2.2.1.trans h1.2.1, h2.2.2.trans h1.2.2⟩
+theorem emit {C} (st : St) (e : Ev) (he : C e = true) : LogOnly C st (st.emit e) := ⟨Ext.emit _ _ he, rfl, rfl⟩
+theorem emits {C} (st : St) (l : List Ev) (hl : ∀ e ∈ l, C e = true) : LogOnly C st (st.emits l) :=
+  ⟨Ext.emits _ _ hl, rfl, rfl⟩
+theorem fail {C} (st : St) (a : Abort) : LogOnly C st (st.fail a) := ⟨Ext.fail _ _, rfl, rfl⟩
+theorem inst {C} {st st' : St} (h : LogOnly C st st') (k : Nat) : st'.inst k = st.inst k := by
+  simp [St.inst, h.2.1]
+end LogOnly
+
+theorem evalTermSim_logOnly (P : Prog) (l : List Nat) : ∀ st : St, LogOnly Ev.isTS st (evalTermSim P l st).1 := by
+  induction l with
+  | nil => intro st; exact LogOnly.refl _ _
+  | cons c rest ih =>
+    intro st
+    simp only [evalTermSim]
+    split
+    · exact LogOnly.emit _ _ (by simp [Ev.isTS])
+    · exact (LogOnly.emit _ _ (by simp [Ev.isTS])).trans (ih _)
+
+theorem termSim_logOnly (P : Prog) (n : Nat) :
+    (∀ i st, LogOnly Ev.isTS st (termSimTree P n i st).1) ∧
+    (∀ l st, LogOnly Ev.isTS st (termSimList P n l st).1) := by
+  induction n with
+  | zero =>
+    exact ⟨fun i st => by unfold termSimTree; exact LogOnly.fail _ _,
+      fun l st => by unfold termSimList; exact LogOnly.fail _ _⟩
+  | succ n ih =>
+    refine ⟨fun i st => ?_, fun l st => ?_⟩
+    · simp only [termSimTree]
+      have h0 := evalTermSim_logOnly P (P.scens.getD (st.inst i).cls default).termSimWhen st
+      generalize evalTermSim P (P.scens.getD (st.inst i).cls default).termSimWhen st = r at h0 ⊢
+      obtain ⟨st1, b⟩ := r
+      cases b with
+      | true => exact h0
+      | false => exact h0.trans (ih.2 _ _)
+    · cases l with
+      | nil => simp only [termSimList]; exact LogOnly.refl _ _
+      | cons j rest =>
+        simp only [termSimList]
+        split
+        · have h0 := ih.1 j st
+          generalize termSimTree P n j st = r at h0 ⊢
+          obtain ⟨st1, b⟩ := r
+          cases b with
+          | true => exact h0
+          | false => exact h0.trans (ih.2 _ _)
+        · exact ih.2 _ _
+
+theorem termSimTop_logOnly (P : Prog) (fuel : Nat) (st : St) : LogOnly Ev.isTS st (termSimTop P fuel st).1 := by
+  unfold termSimTop
+  have h0 := evalTermSim_logOnly P P.termSimWhen st
+  generalize evalTermSim P P.termSimWhen st = r at h0 ⊢
+  obtain ⟨st1, b⟩ := r
+  cases b with
+  | true => exact h0
+  | false => exact h0.trans ((termSim_logOnly P fuel).2 _ _)
+
+theorem rec_logOnly (P : Prog) (f : ScenCls → List Ev) (C : Ev → Bool) (hf : ∀ c, ∀ e ∈ f c, C e = true) (n : Nat) :
+    (∀ i st, LogOnly C st (recTree P f n i st)) ∧ (∀ l st, LogOnly C st (recList P f n l st)) := by
+  induction n with
+  | zero =>
+    exact ⟨fun i st => by unfold recTree; exact LogOnly.fail _ _,
+      fun l st => by unfold recList; exact LogOnly.fail _ _⟩
+  | succ n ih =>
+    refine ⟨fun i st => ?_, fun l st => ?_⟩
+    · simp only [recTree]
+      exact (LogOnly.emits _ _ (hf _)).trans (ih.2 _ _)
+    · cases l with
+      | nil => simp only [recList]; exact LogOnly.refl _ _
+      | cons j rest => simp only [recList]; exact (ih.1 j st).trans (ih.2 _ _)
 
 end Scenic.SimLoop
